@@ -553,6 +553,12 @@ class StartupRun:
                         # a failure and the time-out in the very same instant surface together
                         outcome = {"k": "group", "members": sorted(type(x).__name__ for x in eg.exceptions)}
                         self.log("raised", outcome)
+                    from asphalt.core import current_context
+
+                    if current_context() is not ctx:
+                        # whatever start_component() did - returned, failed, ran out of time -, its caller is where it was
+                        self.probe_failed(0, f"after start_component() ({outcome['k']}) its caller's current context is "
+                                             f"{type(current_context()).__name__}, not the context it called it in", "C12")
                     n_before = len(self.trace)
                     await anyio.sleep(FLUSH)         # anything still running would show up now
                     extra["labels_during_flush"] = len(self.trace) - n_before
